@@ -662,7 +662,27 @@ theorem eqWith_ok_rev (inv : Inv sz s) {x y : Nat} {lx ly : RawList}
     rw [e1, e2, setAlloc_setAlloc, setAlloc_comm _ hxy, setAlloc_setAlloc, setAlloc_self hy,
       setAlloc_self hx]
 
-theorem typedEq_def : typedEq = eqWith true [.self_, .other] (0, 1) rawEqTyped := rfl
+/-- `List<T>::eq` with the generated lock facts (`[self, other]`, or ordered by
+    address): never dead-locks, restores the store, answers list equality. With
+    the pinned tree's `[self, self]` the `decide`d facts below are false and
+    this — hence every theorem of the property — stops checking. -/
+theorem typedEq_ok (inv : Inv sz s) {x y : Nat} {lx ly : RawList}
+    (hx : s.getAlloc x = some lx) (hy : s.getAlloc y = some ly) :
+    typedEq s x y = .ok (.bool (decide (lx.elems = ly.elems)), s) := by
+  have wx := (inv.raw x lx hx).1.wf
+  have wy := (inv.raw y ly hy).1.wf
+  have hc := rawEqTyped_eq (a := { lx with locked := true }) (b := { ly with locked := true }) wx wy
+  have hlt : Gen.ListLocks.typedEqShortcut = true ∧ Gen.ListLocks.typedEqLocksLt = [.self_, .other] ∧
+      Gen.ListLocks.typedEqCompareLt = (0, 1) := by decide
+  have hge : (Gen.ListLocks.typedEqLocksGe = [.self_, .other] ∧ Gen.ListLocks.typedEqCompareGe = (0, 1)) ∨
+      (Gen.ListLocks.typedEqLocksGe = [.other, .self_] ∧ Gen.ListLocks.typedEqCompareGe = (1, 0)) := by decide
+  unfold typedEq
+  rw [hlt.1, hlt.2.1, hlt.2.2]
+  split
+  · exact eqWith_ok inv hx hy _ hc
+  · rcases hge with ⟨h1, h2⟩ | ⟨h1, h2⟩
+    · rw [h1, h2]; exact eqWith_ok inv hx hy _ hc
+    · rw [h1, h2]; exact eqWith_ok_rev inv hx hy _ hc
 
 /-- `ErasedList::eq` with the generated lock facts — sequential `[self, other]`,
     or ordered by address (`[other, self]` when `self` is not below `other`) —
@@ -697,8 +717,8 @@ theorem good_eq (inv : Inv sz s) (rel : Rel s t) (a b : Nat) (typed : Bool) :
       · simp only [stepE, slot_ok hsa, slot_ok hsb]
         cases typed with
         | true =>
-          simp only [if_true, typedEq_def]
-          exact eqWith_ok inv hx hy _ (rawEqTyped_eq (a := { lx with locked := true }) (b := { ly with locked := true }) wx wy)
+          simp only [if_true]
+          exact typedEq_ok inv hx hy
         | false =>
           simp only [Bool.false_eq_true, if_false]
           exact erasedEq_ok inv hx hy
